@@ -73,11 +73,11 @@ Theorem fire_exact_all :
 Proof. exact stanza_match_fires_lemma. Qed.
 Print Assumptions fire_exact_all.
 
-(* the executable match test is the documented one: ns absent, or equal to the stanza's ns or to the ns of one
-   of its direct children; and name; and type *)
+(* the executable match test is the documented one: ns absent, or equal to the stanza's ns or (handlers
+   registered through the public API) to the ns of one of its direct children; and name; and type *)
 Theorem filter_match_is_spec :
-  forall ns name type sz,
-    s_match_stanza ns name type sz = true <-> stanza_filter_matches ns name type sz.
+  forall user ns name type sz,
+    s_match_stanza user ns name type sz = true <-> stanza_filter_matches user ns name type sz.
 Proof. exact match_spec_lemma. Qed.
 Print Assumptions filter_match_is_spec.
 
